@@ -662,7 +662,47 @@ class Fn:
                     elif 1 in arms:
                         res["true"] = (b, arms[1])
                         res["false"] = (b, other)
+        # see through `likely!`/`unlikely!`: each edge only re-materialises the boolean
+        # (`_b = const true` / `_b = const false`, maybe after a marker call such as cold()) and a
+        # join block switches on `_b` again
+        if "true" in res and "false" in res:
+            r2 = self._bool_remat(res["true"], res["false"])
+            if r2:
+                res["true"], res["false"] = r2
         return res
+
+    def _bool_remat(self, te, fe):
+        def follow(b):
+            seen = 0
+            val = None
+            while seen < 6:
+                seen += 1
+                for st in self.stmts(b):
+                    if st.rv_kind() == "use" and st.place is not None and not st.place.proj:
+                        o = Operand(st.rv[1])
+                        if o.const is not None and o.const.get("ty") == "bool" and o.val in (0, 1):
+                            val = (st.place.local, o.val)
+                t = self.term(b)
+                if t[0] == "goto":
+                    b = t[1]
+                elif t[0] == "call" and t[1].get("target") is not None and not t[1]["args"]:
+                    b = t[1]["target"]
+                else:
+                    break
+                if val is not None and self.switch_on(b):
+                    return val[0], val[1], b
+            return None
+        a, c = follow(te[1]), follow(fe[1])
+        if not a or not c or a[0] != c[0] or a[2] != c[2] or {a[1], c[1]} != {0, 1}:
+            return None
+        sw = self.switch_on(a[2])
+        if not sw or sw[0].place is None or sw[0].place.local != a[0]:
+            return None
+        t_tgt = sw[2] if 0 in sw[1] else sw[1].get(1)
+        f_tgt = sw[1].get(0, sw[2])
+        if a[1] == 1:
+            return (a[2], t_tgt), (a[2], f_tgt)
+        return (a[2], f_tgt), (a[2], t_tgt)
 
     def discr_switches(self, adt_suffix):
         """Switches on the discriminant of an ADT whose path ends with adt_suffix:
